@@ -111,7 +111,11 @@ def t_tail(eng):
                b_and(num_eq(m.fields['ff_power'], Pff), num_eq(m.fields['ff_dist'], dist)))
     # the two tables describe the same field: gain = |E|^2 r^2 / (59.96 P_ff) within 2e-5
     if dist_given and nz:
-        for nm, got, t in (('vertical', et, tv), ('horizontal', ep, th)):
+        for nm, got, t, src in (('vertical', et, tv, h), ('horizontal', ep, th, x)):
+            # intermediate step (proved, then used): |E|^2 r^2 P0 = |field|^2 P_ff
+            step = num_eq(r_mul(r_mul(c_abs2(got), r_mul(d, d)), P0), r_mul(c_abs2(src), Pff))
+            if eng.oblige(n + nm + '-|E|^2*r^2*P-equals-|field|^2*P_ff-(intermediate-step)', step):
+                eng.assume(step)
             lhs = r_div(r_mul(c_abs2(got), r_mul(d, d)), r_mul(Fraction('59.96'), Pff))
             eng.oblige(n + nm + '-gain-equals-|E|^2*r^2/(59.96*P)-within-2e-5',
                        b_and(r_cmp('<=', lhs, r_mul(t, Fraction('1.00002'))),
